@@ -1,7 +1,8 @@
 /-!
 Model of `samply-quota-manager` (C15): `file_inventory.rs` (the SQLite inventory) and
 `quota_manager.rs:197-256` (`perform_eviction_if_needed`, `delete_files`), after the repairs
-9223a525 (no eviction when total == max) and f5f79157 (missing file no longer panics).
+9223a525 (no eviction when total == max), f5f79157 (missing file no longer panics) and 0ea8d7c2
+(no `..` rows; the parent directory is resolved when a recorded file no longer resolves).
 
 * Paths are lists of components relative to a base directory `B` (the harness's temporary directory,
   canonical); `".."` is the parent component. The file system is an association list
@@ -14,7 +15,7 @@ Model of `samply-quota-manager` (C15): `file_inventory.rs` (the SQLite inventory
 * Every `unwrap` / `assert!` that can fire is an explicit outcome: `Outcome.panicPoison` (the panic
   happens while the inventory mutex is held ⇒ the mutex is poisoned and every later call that locks it
   panics until the manager is re-created) or `Outcome.panicClean`.
-* `…Legacy` definitions keep the pre-9223a525 selection loop.
+* `…Legacy` definitions keep the pre-9223a525 selection loop; `…LegacyPath` the pre-0ea8d7c2 path handling.
 
 Core Lean only (linked into the driver executable).
 -/
@@ -87,8 +88,16 @@ def canonOrKeep (fs : FS) (p : Path) : Path :=
   | .ok q => q
   | .error _ => p
 
-/-- `relative_path_under_managed_directory` (file_inventory.rs:154-158) -/
-def relUnder (fs : FS) (root p : Path) : Option Path := stripPrefix root (canonOrKeep fs p)
+/-- pre-0ea8d7c2 `relative_path_under_managed_directory`: lexical `strip_prefix` only -/
+def relUnderLegacy (fs : FS) (root p : Path) : Option Path := stripPrefix root (canonOrKeep fs p)
+
+/-- `relative_path_under_managed_directory` (file_inventory.rs:154-166): canonicalize-or-keep,
+`strip_prefix`, and (0ea8d7c2) every remaining component must be `Component::Normal` — a path that could
+not be canonicalized may still contain `..` and is then not known to be under the root -/
+def relUnder (fs : FS) (root p : Path) : Option Path :=
+  match stripPrefix root (canonOrKeep fs p) with
+  | none => none
+  | some rel => if rel.all (fun c => c != "..") then some rel else none
 
 inductive DelRes where
   | ok | notFound | err
@@ -170,9 +179,29 @@ def onDeleted (fs : FS) (root : Path) (inv : List Row) (p : Path) : List Row :=
 
 /-! ### Eviction -/
 
-/-- `to_absolute_path` (file_inventory.rs:160-167); `none` = `assert!(abs_path.starts_with(root))` fails -/
-def toAbsolute (fs : FS) (root rel : Path) : Option Path :=
+/-- pre-0ea8d7c2 `to_absolute_path`: when `canonicalize` fails the joined path is used unresolved -/
+def toAbsoluteLegacy (fs : FS) (root rel : Path) : Option Path :=
   let abs := canonOrKeep fs (root ++ rel)
+  if (stripPrefix root abs).isSome then some abs else none
+
+/-- the path `to_absolute_path` works with (file_inventory.rs:168-182): the canonical path; when the
+file does not resolve, the canonicalized *parent* joined with the file name; the joined path only when
+the parent does not resolve either (or there is no file name: the path ends in `..` or is empty) -/
+def resolveOrParent (fs : FS) (joined : Path) : Path :=
+  match canonicalize fs joined with
+  | .ok q => q
+  | .error _ =>
+    match joined.getLast? with
+    | none => joined
+    | some last =>
+      if last = ".." then joined
+      else match canonicalize fs joined.dropLast with
+        | .ok par => par ++ [last]
+        | .error _ => joined
+
+/-- `to_absolute_path`; `none` = `assert!(abs_path.starts_with(root))` fails -/
+def toAbsolute (fs : FS) (root rel : Path) : Option Path :=
+  let abs := resolveOrParent fs (root ++ rel)
   if (stripPrefix root abs).isSome then some abs else none
 
 /-- `file_info_from_row` (file_inventory.rs:253-265); `none` = panic (the assert, or
@@ -307,6 +336,48 @@ def evictCoreLegacy (ord : List Row) (now : Nat) (c : Cfg) (fs : FS) (inv : List
   | some cs =>
     let t := deleteFiles c.root fs inv cs
     agePass now c t.1 t.2.1 t.2.2
+
+/-! #### pre-0ea8d7c2 pass (lexical fallback), kept for the witness theorem -/
+
+def convertLegacyPath (fs : FS) (root : Path) (r : Row) : Option (Row × Path) :=
+  match toAbsoluteLegacy fs root r.rel with
+  | none => none
+  | some p => if r.size < 0 then none else some (r, p)
+
+def onCreatedLegacyPath (fs : FS) (root : Path) (inv : List Row) (p : Path) (size : Nat) (t : Int) :
+    Option (List Row) :=
+  match relUnderLegacy fs root p with
+  | none => some inv
+  | some rel => if t < 0 then none else some (upsert ⟨rel, toI64 size, t.toNat, t.toNat⟩ inv)
+
+def onDeletedLegacyPath (fs : FS) (root : Path) (inv : List Row) (p : Path) : List Row :=
+  match relUnderLegacy fs root p with
+  | none => inv
+  | some rel => invDelete rel inv
+
+def deleteFilesLegacyPath (root : Path) : FS → List Row → List (Row × Path) → FS × List Row × List Attempt
+  | fs, inv, [] => (fs, inv, [])
+  | fs, inv, (r, p) :: rest =>
+    let u := unlink fs p
+    let inv' := match u.1 with
+      | .ok => onDeletedLegacyPath u.2 root inv p
+      | .notFound => onDeletedLegacyPath u.2 root inv p
+      | .err => inv
+    let t := deleteFilesLegacyPath root u.2 inv' rest
+    (t.1, t.2.1, ⟨r, p, u.1⟩ :: t.2.2)
+
+/-- size pass of the pre-0ea8d7c2 code (the age pass is not needed for the witness) -/
+def sizePassLegacyPath (ord : List Row) (c : Cfg) (fs : FS) (inv : List Row) : EvictRes :=
+  match c.maxSize with
+  | none => ⟨fs, inv, .ok, []⟩
+  | some m =>
+    let total := totalSize inv
+    let cands := if total < m then some [] else selectLoop (convertLegacyPath fs c.root) (total - m) ord
+    match cands with
+    | none => ⟨fs, inv, .panicPoison, []⟩
+    | some cs =>
+      let t := deleteFilesLegacyPath c.root fs inv cs
+      ⟨t.1, t.2.1, .ok, t.2.2⟩
 
 /-- insert a row that has a smaller rowid than every row of the (sorted) list: it goes before the
 first row that is not strictly older -/
